@@ -1,12 +1,12 @@
 SPECIFICATION Spec
 CONSTANTS
-  Role = "client"
+  Role = "server"
   WProgs <- TWProgs
   KProgs <- TKProgs
   RProgs <- TRProgs
-  FaultAts = {0, 1, 2, 3, 4, 6}
+  FaultAts = {0, 0, 0, 2, 3, 5}
   MultiQ = FALSE
   KeepSched = TRUE
-VIEW View
-INVARIANTS MonitorOK CloseLatched WCBounded
+CONSTRAINT EmitSched
+INVARIANTS MonitorOK
 CHECK_DEADLOCK FALSE
